@@ -35,6 +35,7 @@ type opT struct {
 	Doc     docT     `json:"doc"`
 	K       int      `json:"k"`
 	Mutate  bool     `json:"mutate"`
+	Reenter docT     `json:"reenter"` // call: while the call runs, the function "id" calls the same parsed function on this document
 }
 
 type caseT struct {
